@@ -64,3 +64,10 @@ def hash_json_pool():
         fh = FileHash(digest=d, mode=0o100644, mtime=1.0, size=3, inode=7)
         out.append(fh.to_json())
     return out
+
+
+def step_hash_json_pool():
+    """Real StepHash JSON strings for the step_hash.hash column."""
+    from stepup.core.hash import StepHash
+
+    return [StepHash(b"\x03" * 32, None, b"\x04" * 32, None).to_json()]
